@@ -703,6 +703,20 @@ def run(ctx):
                     gbi = get(main, "gen_bulk_int", k)
                     dbk = get(main, b["imb_diss"] + "_bulk", k)
                     m0 = C.unfx(main["dedt_m0"][k]) if b["dedt"] is not None and not is_err(main.get("dedt_m0")) else 0.0
+                    if b["dedt"] is not None and not is_err(main.get("dedt_m0")):
+                        # the variance of the supplied rate-of-change spectrum, integrated independently (direction sum,
+                        # trapezoid over frequency): a decaying sea has a NEGATIVE integral, and it counts
+                        fg = b["grid"]["f"]
+                        ed = [sum(dedt[i_ * nd + j_] * edth[j_] for j_ in range(nd)) for i_ in range(nf)]
+                        m0_ind = sum(0.5 * (ed[i_] + ed[i_ + 1]) * (fg[i_ + 1] - fg[i_]) for i_ in range(nf - 1))
+                        m0_abs = sum(0.5 * (abs(ed[i_]) + abs(ed[i_ + 1])) * (fg[i_ + 1] - fg[i_]) for i_ in range(nf - 1))
+                        ctx.tally("rate-of-change spectrum: net %s" % ("negative" if m0_ind < 0 else "positive"))
+                        if not C.close(m0, m0_ind, 1e-9, 1e-12 * m0_abs):
+                            ctx.oracle_fail("m0() of the rate-of-change spectrum is %r, its frequency-direction integral is %r "
+                                            "(the bulk imbalance subtracts this term)" % (m0, m0_ind),
+                                            dict(rep, dissipation=b["imb_diss"], m0_dEdt=m0, integral_dEdt=m0_ind,
+                                                 time_derivative=unflat(dedt, nf, nd)))
+                        m0 = m0_ind
                     if not is_err(bim) and not is_err(gbi) and not is_err(dbk):
                         want = gbi + dbk - m0
                         if not C.close(bim, want, 1e-12, 1e-13 * (abs(gbi) + abs(dbk) + abs(m0))):
